@@ -44,6 +44,7 @@ func checkC15(c *Ctx) {
 	c.c15Protocol()
 	c.c15Labelling()
 	c.c15DefaultDeleter()
+	c.c15WhoRemovesLabels()
 	// the count sums the deleters' nil results: it equals the entries removed only if the in-module Delete reports nil exactly once
 	// per removed entry — presence check and removal in one critical section (two concurrent invalidations sharing a key must not
 	// both count it), nil only with evidence of presence
@@ -304,6 +305,58 @@ func (c *Ctx) c15RangeShrink() {
 	if !bad {
 		r.OK("R15.2", "package", fmt.Sprintf("%d range loops over slice variables, none re-slices its operand", n))
 	}
+}
+
+// c15WhoRemovesLabels: labels leave the index only through invalidation (cutKeys) — nothing else deletes from or replaces the
+// per-name maps or their lists (a flush of one cache must not forget labels that other caches registered under the same name rely on).
+func (c *Ctx) c15WhoRemovesLabels() {
+	r := c.R
+	info := c.Pkg.TypesInfo
+	isIndex := func(e ast.Expr, depth int) bool {
+		// i.labeledKeysByName, i.labeledKeysByName[x]
+		for d := 0; d <= depth; d++ {
+			switch x := ast.Unparen(e).(type) {
+			case *ast.SelectorExpr:
+				if s := info.Selections[x]; s != nil && s.Kind() == types.FieldVal && selFieldName(s) == "labeledKeysByName" {
+					return true
+				}
+				return false
+			case *ast.IndexExpr:
+				e = x.X
+			default:
+				return false
+			}
+		}
+		return false
+	}
+	n, bad := 0, false
+	c.eachFuncDecl(func(fd *ast.FuncDecl, fn *types.Func) {
+		name := strings.TrimPrefix(pw.FuncName(fn), "cache.")
+		ast.Inspect(fd.Body, func(x ast.Node) bool {
+			call, ok := x.(*ast.CallExpr)
+			if !ok {
+				return true
+			}
+			id, ok := call.Fun.(*ast.Ident)
+			if !ok || len(call.Args) != 2 {
+				return true
+			}
+			if _, isB := info.Uses[id].(*types.Builtin); !isB || id.Name != "delete" {
+				return true
+			}
+			if !isIndex(call.Args[0], 1) {
+				return true
+			}
+			n++
+			bad = true
+			r.Bad("R15.1", name, "labels-dropped-outside-invalidation", c.Pos(call.Pos()), "labels are deleted from the index outside the cut of an invalidation: keys registered under them (also by other caches of that name) are never invalidated", nil)
+			return true
+		})
+	})
+	if !bad {
+		r.OK("R15.1", "package:who-removes-labels", "no deletion from the label index of the InvalidationIndex outside cutKeys (which works on the snapshot handed to it)")
+	}
+	_ = n
 }
 
 // c15DefaultDeleter: the label index embedded in a backend deletes from that very backend: its constructor creates the index with
@@ -721,6 +774,16 @@ func (c *Ctx) c15Labelling() {
 				r.Bad("R15.6", name, "no-index-lookup", c.Pos(p.RetPos), "labels are added without looking up the cache name's label map", shortTrace(p))
 				bad = true
 				continue
+			}
+			if m == "AddLabels" {
+				nameParam := paramByType(e, func(t types.Type) bool {
+					b, ok := t.Underlying().(*types.Basic)
+					return ok && b.Kind() == types.String
+				})
+				if nameParam != nil && look.Key != nameParam {
+					r.Bad("R15.6", name, "labels-filed-under-other-name", c.Pos(look.Pos), "AddLabels files the labels under a name other than the cacheName it was given: InvalidateByLabels pairs labels and deleters by name", shortTrace(p))
+					bad = true
+				}
 			}
 			if m == "AddInvalidationLabels" && constString(look.Key) != "default" {
 				r.Bad("R15.6", name, "not-default-cache", c.Pos(look.Pos), "AddInvalidationLabels must label the key in the \"default\" cache", shortTrace(p))
